@@ -278,6 +278,9 @@ func genHistory(g *sim.Stream, f *sim.Stream) []*invocation {
 				if g.Chance(1, 2) {
 					iv.IsLib = true
 					iv.Src = c07Lib + fmt.Sprintf("\n%d\n", 1000+g.Intn(1000))
+				} else if g.Chance(1, 4) {
+					// a module the host supplied as a global is importable in every run
+					iv.Src = "import os\nos.getenv(\"WHO\")"
 				} else if g.Chance(1, 3) {
 					// one fixed script that rebinds a host-supplied global: every run
 					// of it starts from the host's value
